@@ -11,12 +11,14 @@ SPEC = {
         "Proved on the model (Model/CASFS.lean; its reading of fs.go pinned by C29_facts_ok): findNode is sound on every "
         "tree and complete on well-formed trees against an inductive description of the tree (C29_findNode_faithful); at API "
         "level, for names fs.ValidPath accepts, Stat succeeds exactly on the tree's entries and reports them "
-        "(C29_stat_faithful: such names pass through filepath.Join/Clean unchanged); `..` never escapes; Open returns exactly "
+        "(C29_stat_faithful, with a plain working directory C29_stat_faithful_wd: such names pass through filepath.Join/Clean "
+        "unchanged); ReadDir(n<=0) returns an entry exactly when the tree has it directly in that directory "
+        "(C29_readDir_lists_tree); `..` never escapes; Open returns exactly "
         "the entry at the end of the symlink chain for every sufficient fuel (C29_open_follows_chain, "
         "C29_open_fuel_independent) and terminates whenever the chain ends (C29_open_ok_no_loop); absolute targets fail "
         "cleanly; ReadDir(n<=0) lists exactly the directory. PARTIAL: five clauses of the statement are false on the pinned code, each with a "
-        "kernel-checked witness and a narrow known-finding class: symlink cycles exhaust every fuel (fatal stack overflow in "
-        "Go), ReadDir(n>0) has no offset (never io.EOF), Open accepts names fs.ValidPath rejects, Stat does not follow "
+        "kernel-checked witness and a narrow known-finding class: every symlink cycle, of any length, exhausts every fuel "
+        "(C29_open_diverges_on_any_cycle; fatal stack overflow in Go), ReadDir(n>0) has no offset (never io.EOF), Open accepts names fs.ValidPath rejects, Stat does not follow "
         "symlinks while Open does, paths through a symlinked directory are not resolved."
     ),
     "technique": "Lean 4 theorems over an executable model of findNode/open/ReadDir (fuel for the unbounded recursion, "
@@ -24,8 +26,11 @@ SPEC = {
                  "process + real-file-system / fstest.TestFS / paging-contract oracle",
     "trusted": [
         "go/ast extractor harness/extract/c29 (search order and cut in findNode, the . and .. cases, open's single "
-        "unbounded self-call after the IsAbs check, ReadDir's loop order, absence of io.EOF and of any state in dir)",
-        "correspondence harness/cmd/c29 vs Driver/C29.lean: FindNode/Stat/Open/ReadDir on generated Trees (nested dirs, "
+        "unbounded self-call after the IsAbs check, ReadDir's loop order, absence of io.EOF and of any state in dir; and "
+        "canonical skeleton digests of findNode, open, Open, FindNode, Stat, New, ChangeDir, ReadDir, openDir, openFile and "
+        "the four info constructors - any structural change of the transcribed code flips C29_skeletons_ok)",
+        "correspondence harness/cmd/c29 vs Driver/C29.lean: FindNode/Stat/Open/ReadDir (views made by New(wd) and by "
+        "ChangeDir(wd)) on generated Trees (nested dirs, "
         "duplicate names, relative/absolute/dangling/looping symlinks, working directories, unclean query paths) with an "
         "in-memory CAS; every op runs in a worker process with a 16 MB stack limit, a dead worker = `crash` = the model's "
         "outOfFuel",
